@@ -40,12 +40,12 @@ Proof.
   rewrite Hnz.
   assert (Hpl : length (nm ++ pad) = 8%nat) by (unfold pad; rewrite app_length, repeat_length; lia).
   assert (S1 : slice (nm ++ pad ++ le_encode 4 (en_offset e) ++ le_encode 4 (en_size e)) 0 8 = nm ++ pad).
-  { unfold slice. simpl skipn. rewrite app_assoc. change (Z.to_nat 8) with 8%nat. now apply firstn_app_exact. }
+  { rewrite ?slice_raw; unfold slice0. simpl skipn. rewrite app_assoc. change (Z.to_nat 8) with 8%nat. now apply firstn_app_exact. }
   assert (S2 : slice (nm ++ pad ++ le_encode 4 (en_offset e) ++ le_encode 4 (en_size e)) 8 4 = le_encode 4 (en_offset e)).
-  { unfold slice. rewrite app_assoc. change (Z.to_nat 8) with 8%nat. rewrite skipn_app_exact by exact Hpl.
+  { rewrite ?slice_raw; unfold slice0. rewrite app_assoc. change (Z.to_nat 8) with 8%nat. rewrite skipn_app_exact by exact Hpl.
     change (Z.to_nat 4) with 4%nat. apply firstn_app_exact. apply length_le_encode. }
   assert (S3 : slice (nm ++ pad ++ le_encode 4 (en_offset e) ++ le_encode 4 (en_size e)) 12 4 = le_encode 4 (en_size e)).
-  { unfold slice. rewrite !app_assoc. change (Z.to_nat 12) with 12%nat.
+  { rewrite ?slice_raw; unfold slice0. rewrite !app_assoc. change (Z.to_nat 12) with 12%nat.
     rewrite skipn_app_exact by (rewrite app_length, Hpl, length_le_encode; reflexivity).
     change (Z.to_nat 4) with 4%nat. rewrite <- (app_nil_r (le_encode 4 (en_size e))) at 1.
     apply firstn_app_exact. apply length_le_encode. }
